@@ -44,7 +44,24 @@ func wVarintPadded(b []byte, v uint64, pad int) []byte {
 	return append(b, enc...)
 }
 
-func wTag(b []byte, num int, wt int) []byte { return wVarint(b, uint64(num)<<3|uint64(wt)) }
+// c09TagPad > 0: tags are written as non-minimal varints with that many padding bytes (legal, like any padded varint).
+// Set per generated case by drawTagPad; the generators run on one goroutine.
+var c09TagPad int
+
+func wTag(b []byte, num int, wt int) []byte {
+	if c09TagPad > 0 {
+		return wVarintPadded(b, uint64(num)<<3|uint64(wt), c09TagPad)
+	}
+	return wVarint(b, uint64(num)<<3|uint64(wt))
+}
+
+func drawTagPad(t *rapid.T, flags map[string]bool) {
+	c09TagPad = 0
+	if rapid.IntRange(0, 7).Draw(t, "paddedTags") == 0 {
+		c09TagPad = rapid.IntRange(1, 3).Draw(t, "tagPad")
+		flags["padded-tags"] = true
+	}
+}
 
 func wBytes(b []byte, num int, p []byte) []byte {
 	b = wTag(b, num, 2)
@@ -146,6 +163,7 @@ func genTimestamp(t *rapid.T, flags map[string]bool) (*pb.IPFSTimestamp, []byte)
 
 func genDataMessage(t *rapid.T) *c09Case {
 	c := &c09Case{msg: &pb.Data{}, flags: map[string]bool{}}
+	drawTagPad(t, c.flags)
 	typ := pb.Data_DataType(rapid.SampledFrom([]int32{0, 1, 2, 2, 3, 4, 5, 5, 6, 99, 1<<31 - 1}).Draw(t, "type"))
 	c.msg.Type = &typ
 	var fields [][]byte
@@ -520,11 +538,13 @@ const c09AuxRule = "case = Metadata{MimeType?} and bare IPFSTimestamp messages i
 	"non-trivial = message with an unknown field or non-canonical order, or a mode with bits above the low twelve; distinct by (kind, presence, flags)"
 
 func TestC09_P_MetadataTimeBuilder(t *testing.T) {
+	defer func() { c09TagPad = 0 }()
 	ev := newEvid(t, c09AuxRule)
 	rapid.Check(t, func(t *rapid.T) {
 		switch rapid.SampledFrom([]string{"metadata", "time", "builder-permissions"}).Draw(t, "kind") {
 		case "metadata":
 			flags := map[string]bool{}
+			drawTagPad(t, flags)
 			var parts [][]byte
 			msg := &pb.Metadata{}
 			if rapid.Bool().Draw(t, "hasMime") {
@@ -586,6 +606,7 @@ func TestC09_P_MetadataTimeBuilder(t *testing.T) {
 			ev.Sample(map[string]any{"kind": "metadata", "wire_hex": fmt.Sprintf("%x", wire)})
 		case "time":
 			flags := map[string]bool{}
+			drawTagPad(t, flags)
 			ts, wire := genTimestamp(t, flags)
 			var ref pb.IPFSTimestamp
 			if err := proto.Unmarshal(wire, &ref); err != nil {
